@@ -157,6 +157,18 @@ def ctx():
     return c
 
 
+_PROXY_NAMES = ('SFloat', 'SInt', 'SStr', 'SFmt', 'SBool', 'SReal', 'SOpaque', 'SOpaqueStr', 'SInexactRepr', 'SymRe', 'ShapeMatch', 'SList', 'SDate')
+
+
+def proxy_leak(e):
+    """an AttributeError / TypeError whose message names a proxy class: raised because un-instrumented code or a C-level
+    built-in was handed a proxy, not because of anything the program under verification does"""
+    if not isinstance(e, (AttributeError, TypeError)):
+        return False
+    msg = str(e)
+    return any(("'%s'" % n) in msg or ('%s object' % n) in msg or ('not %s' % n) in msg for n in _PROXY_NAMES)
+
+
 class Path(object):
     __slots__ = ('pc', 'outcome', 'value', 'obligations', 'assumptions', 'inputs', 'notes', 'extra')
 
@@ -197,7 +209,12 @@ def explore(run, post=None, max_paths=200000, feas_timeout_ms=3000, on_path=None
             except Exception as e:            # a real Python exception is a path outcome
                 if not c.called:
                     raise                     # raised by the harness before the function under test was entered
-                p = Path(c.pc, 'exc', e, c.obligations, c.assumptions, c.inputs, c.notes)
+                if proxy_leak(e):
+                    # code that was not re-compiled (or a C-level built-in) met a proxy: outside the encoding, not a behaviour
+                    stats['oos'] += 1
+                    p = Path(c.pc, 'oos', OutOfSubset('a proxy reached code outside the encoding: %s' % str(e)[:120]), c.obligations, c.assumptions, c.inputs, c.notes)
+                else:
+                    p = Path(c.pc, 'exc', e, c.obligations, c.assumptions, c.inputs, c.notes)
             if p is not None and post is not None and p.outcome != 'oos':
                 try:
                     post(p, c)
